@@ -9,8 +9,7 @@ Open Scope Z_scope.
 
 (* 1. The compiled backend, every string, every option combination, any dateutil that itself only returns a datetime or raises
    ValueError: pendulum.parse returns a value or raises ValueError/ParserError EXCEPT on the characterised regions —
-   TypeError only if COMMON matches with its minute group absent or an interval has an endpoint that is not a date-time;
-   AttributeError only in the latter region; OverflowError only if a duration does not fit a timedelta or the interval arithmetic
+   TypeError / AttributeError only if an interval has an endpoint that is not a date-time; OverflowError only if a duration does not fit a timedelta or the interval arithmetic
    (on date-time endpoints) leaves years 1..9999.  No other exception kind (no out-of-fuel, no RuntimeError) is possible. *)
 Theorem parse_total_rs : forall (du : list Z -> bool -> bool -> result pval),
   (forall s a b, out_ok (du s a b)) ->
@@ -18,8 +17,7 @@ Theorem parse_total_rs : forall (du : list Z -> bool -> bool -> result pval),
     match parse_full du true o s with
     | Ok _ => True
     | Raise E_ValueError | Raise E_ParserError => True
-    | Raise E_TypeError => common_minute_absent s = true \/ interval_nondt true s = true
-    | Raise E_AttributeError => interval_nondt true s = true
+    | Raise E_TypeError | Raise E_AttributeError => interval_nondt true s = true
     | Raise E_OverflowError => rs_duration_overflow s = true \/ (interval_ok true s = true /\ interval_nondt true s = false)
     | Raise _ => False
     end.
@@ -36,25 +34,30 @@ Theorem py_datetime_total : forall s, out_ok (py_parse_iso s).
 Proof. exact py_parse_iso_total. Qed.
 Print Assumptions py_datetime_total.
 
-(* 4. _parse_common (both backends, with day_first): TypeError exactly inside the minute-absent region, otherwise a value or a ValueError *)
-Theorem common_total_partial : forall df s,
-  match common_parse_df df s with
-  | Raise E_TypeError => common_minute_absent s = true
-  | r => out_ok r
-  end.
-Proof. exact common_classes. Qed.
-Print Assumptions common_total_partial.
+(* 4. _parse_common (both backends, with day_first), every string: a value or a ValueError/ParserError.  The minute group of the
+   COMMON pattern generated from /repo is mandatory whenever the time group matches (a capture-dependency theorem about the matcher,
+   Proofs/C17Regex.v), so int(m.group("minute")) never sees None: the former TypeError region is empty and "2:" is a ParserError *)
+Theorem common_total : forall df s, out_ok (common_parse_df df s).
+Proof. exact common_total. Qed.
+Print Assumptions common_total.
 
-(* 5. parse_total is false of the code: TypeError ("2:", "2021-01-01/P1D", "P1D/2021-01-01", "12:00/13:00"), AttributeError ("P1D/P1D"),
+Theorem common_minute_never_absent : forall s, common_minute_absent s = false.
+Proof. exact common_minute_absent_never. Qed.
+Print Assumptions common_minute_never_absent.
+
+Theorem minute_absent_rejected : forall du rs, parse_full du rs opts0 s_2colon = Raise E_ParserError.
+Proof. intros du rs. apply (w_minute_absent du rs). Qed.
+Print Assumptions minute_absent_rejected.
+
+(* 5. parse_total is false of the code: TypeError ("2021-01-01/P1D", "P1D/2021-01-01", "12:00/13:00"), AttributeError ("P1D/P1D"),
    OverflowError ("P99999999999D", "2021-01-01T00:00:00/P3000000D", "0001-01-01T00:00:00+01:00/PT1H"), both backends, any dateutil *)
 Theorem parse_total_refuted : forall du rs,
-  parse_full du rs opts0 s_2colon = Raise E_TypeError /\ common_minute_absent s_2colon = true /\
   parse_full du rs opts0 s_date_dur = Raise E_TypeError /\ parse_full du rs opts0 s_dur_date = Raise E_TypeError /\
   parse_full du rs opts0 s_time_time = Raise E_TypeError /\ parse_full du rs opts0 s_dur_dur = Raise E_AttributeError /\
   parse_full du rs opts0 s_big = Raise E_OverflowError /\
   parse_full du rs opts0 s_iv_over = Raise E_OverflowError /\ parse_full du rs opts0 s_iv_under = Raise E_OverflowError.
 Proof.
-  intros du rs. destruct (w_minute_absent du rs) as [A B]. destruct (w_interval_endpoints du rs) as [C [D [E F]]].
+  intros du rs. destruct (w_interval_endpoints du rs) as [C [D [E F]]].
   destruct (w_interval_overflow du rs) as [G H]. repeat split; auto using w_too_large.
 Qed.
 Print Assumptions parse_total_refuted.
